@@ -51,6 +51,8 @@ class ExprMixin(EngineBase):
             return self.global_value(r, ctx, name, node)
         if name in BUILTIN_NAMES:
             return ExtVal(f"builtins.{name}")
+        if name == "__name__":
+            return ctx.module.name
         raise Unsupported(f"unresolved name {name!r}", node)
 
     def global_value(self, r: Any, ctx: Ctx, name: str, node: Any = None) -> Any:
